@@ -72,6 +72,10 @@ func genRegs(t *rapid.T, min, max int) []Reg {
 	var out []Reg
 	for i, n := 0, rapid.IntRange(min, max).Draw(t, "nregs"); i < n; i++ {
 		out = append(out, Reg{Pattern: rapid.SampledFrom(patterns).Draw(t, "p"), Methods: rapid.SampledFrom(methodSets).Draw(t, "ms"), Remove: rapid.IntRange(0, 5).Draw(t, "rm") == 0})
+		if last := out[len(out)-1]; last.Pattern == longRoute && !last.Remove {
+			// the long route comes with the catch-all that answers its near miss
+			out = append(out, Reg{Pattern: "/{path}", Methods: []string{"GET"}})
+		}
 	}
 	return out
 }
